@@ -465,7 +465,80 @@ def c19(prop, tier):
                                   "non-empty haystack; per-strategy pattern counts are in patterns_by_strategy")
 
 
+def c15(prop, tier):
+    """Translation validation of the NFA compiler's byte automata by TLC (spec/MC_UTF8.tla, spec/UTF8.tla)."""
+    t0 = time.time()
+    q = tier == "quick"
+    vh = vlib.build_harness()
+    work = tempfile.mkdtemp(prefix="vC15_")
+    try:
+        machinery = []
+        gen_out = os.path.join(work, "gen.out")
+        base = {"NFAFile": "none", "Shard": 0, "NShards": 1, "MaxIll": 1}
+        r0 = vlib.run_tlc("MC_UTF8", dict(base, Phase="gen"), SEARCH_CFG, gen_out, workers=2, timeout=600)
+        if r0.error or r0.violation:
+            raise Machinery(f"MC_UTF8 gen: {r0.error or r0.violation}")
+        nfas = os.path.join(work, "nfas.ndjson")
+        p = subprocess.run([vh, "nfaexport", "-in", gen_out, "-out", nfas], capture_output=True, text=True, timeout=600)
+        if p.returncode != 0:
+            raise Machinery("nfaexport: " + p.stderr[-500:])
+        nsh = 6 if q else 1
+        shard = vlib.seed() % nsh
+        chk_out = os.path.join(work, "check.out")
+        scratch = tempfile.mkdtemp(prefix="vtlc_")
+        try:
+            shutil.copy(nfas, os.path.join(scratch, "nfas.ndjson"))
+            r1 = vlib.run_tlc("MC_UTF8", {"Phase": "check", "NFAFile": "nfas.ndjson", "Shard": shard, "NShards": nsh, "MaxIll": 2 if q else 3}, SEARCH_CFG, chk_out,
+                              workers=16, timeout=3000, heap="8g", java_opts=["-Xss1g"], scratch=scratch)
+        finally:
+            shutil.rmtree(scratch, ignore_errors=True)
+        if r1.error or r1.violation:
+            raise Machinery(f"MC_UTF8 check: {r1.error or r1.violation}")
+        rp, fp = os.path.join(work, "r.json"), os.path.join(work, "f.ndjson")
+        p = subprocess.run([vh, "utf8confirm", "-in", chk_out, "-report", rp, "-fail", fp], capture_output=True, text=True, timeout=1200)
+        if p.returncode != 0:
+            raise Machinery("utf8confirm: " + p.stderr[-500:])
+        rep = vlib.read_report(rp)
+        # auxiliary: sweep of the code points with the real engine against regexp
+        srp, sfp = os.path.join(work, "sr.json"), os.path.join(work, "sf.ndjson")
+        p = subprocess.run([vh, "utf8sweep", "-in", gen_out, "-report", srp, "-fail", sfp, "-step", "29" if q else "1"],
+                           capture_output=True, text=True, timeout=3000)
+        if p.returncode != 0:
+            raise Machinery("utf8sweep: " + p.stderr[-500:])
+        srep = vlib.read_report(srp)
+        kf, known_hit, violations, total = vlib.classify([fp, sfp], prop)
+        coverage = {
+            "programs": rep["extra"]["automata_checked"], "disagreements_checked": rep["extra"]["disagreements_confirmed"] + rep.get("spec_gaps", 0),
+            "samples": rep.get("samples") or [{"note": "none"}],
+            "states": r0.distinct + r1.distinct, "transitions": r0.generated + r1.generated,
+            "evaluations": rep["extra"]["acceptance_tests_by_tlc"] + srep["extra"]["code_points_swept"],
+            "distinct_nontrivial": rep["extra"]["acceptance_tests_by_tlc"],
+            "rule": "one program = the exported byte automaton of one descriptor (class / negated class / folded class / literal / dot) in one compilation "
+                    "mode; TLC runs its byte-level semantics on the encodings of all boundary code points of the descriptor and on every byte string of "
+                    "length <= 3 over 15 lead/continuation/ASCII bytes (each an acceptance test, all distinct) and compares with Member(descriptor, decoded "
+                    "rune); every disagreement is confirmed against regexp and the real engine before it counts; auxiliary: the real engine on every "
+                    "code point (stride given below) against regexp",
+            "acceptance_tests_by_tlc": rep["extra"]["acceptance_tests_by_tlc"], "code_points_swept_in_go": srep["extra"]["code_points_swept"],
+            "sweep_stride": 29 if q else 1, "descriptor_shard": f"{shard}/{nsh}", "spec_gaps": rep.get("spec_gaps", 0) ,
+            "failing_calls_total": total, "exhaustive": not q, "tlc_wall_s": round(r0.wall + r1.wall, 1),
+        }
+        machinery += rep.get("machinery_errors") or []
+        return vlib.finish(prop, tier, "translation_validation", coverage, known_hit, violations, t0, kf,
+                           assumptions=["the exporter reads the automaton through nfa.NFA's public inspection API faithfully (a disagreement is re-observed on the real engine before it counts)",
+                                        "regexp arbitrates the expected acceptance (three-way)", "TLC evaluates the byte-level semantics and UTF-8 definitions correctly"],
+                           machinery=machinery)
+    finally:
+        keep = os.environ.get("VERIF_KEEP")
+        if keep:
+            os.makedirs(keep, exist_ok=True)
+            for f in ("f.ndjson", "sf.ndjson"):
+                if os.path.exists(os.path.join(work, f)):
+                    shutil.copy(os.path.join(work, f), os.path.join(keep, f"{prop}_fail_{f}"))
+        shutil.rmtree(work, ignore_errors=True)
+
+
 REGISTRY = {
+    "C15": c15,
     "C19": c19,
     "C09": c09,
     "C13": c13,
